@@ -406,6 +406,49 @@ claim("C15", "S1",
       "ast structural rules (role inference, guard dominance, exact pipelines) + exception-identity taint + synchronous-callback hazard rules")
 
 
+# rule families added during the build (DESIGN.md section 9.3); appended to the level text of the checks that run them
+_DISC = ("Also decided for these operators: the discipline rules (gate state before the downstream call it gates; callback state "
+         "before the subscribe that may call back; lock-protected closure state always under the lock) and scheduler forwarding / "
+         "precedence at every subscribe site.")
+ADDENDA = {
+    "C05": _DISC + " distinct_until_changed replaces its remembered key exactly when it emits; composites are exactly their documented pipelines.",
+    "C06": _DISC + " Composites are exactly their documented pipelines.",
+    "C07": "The positional operators slice composes update their countdown before the downstream call it gates (re-entrant sources).",
+    "C08": "Taint sources include results of the user's data-producing callbacks (key_mapper, mapper, accumulator, ...) and the opaque "
+           "parameters seed / default_value / initial_value; all()/any() over element containers are sinks.",
+    "C10": _DISC + " A continuation installed by a synchronously terminating source is not clobbered by a late store into the serial "
+           "disposable; recorded errors decide by identity; repeat/retry choose the unbounded form by `count is None`.",
+    "C11": _DISC + " An inner's (and merge_all's outer) holder is registered in the group before subscribing.",
+    "C12": _DISC + " State writes of inner handlers are stale-guarded too; composites are exact pipelines.",
+    "C13": _DISC + " with_latest_from subscribes the other sources before the primary.",
+    "C14": "Trampoline.run empties its queue in the finally that restores idle. The explicit-scheduler clause of the property is a "
+           "KNOWN FINDING of the pinned tree (H5): Observable.subscribe's deferral ignores an explicit scheduler argument.",
+    "C16": _DISC + " throttle_first computes elapsed time on the scheduler's own time values (no float seconds).",
+    "C17": _DISC + " take_with_time / skip_with_time arm the boundary timer before subscribing; the fallback stored by a timer is never clobbered.",
+    "C18": _DISC + " window_with_time's close/open decisions are evaluated for the three orderings of (next_span, next_shift); fan-out loops "
+           "deliver to their loop variable and do not mutate the collection they iterate.",
+    "C19": _DISC + " Terminal fan-out iterates a snapshot of the group map and delivers to the loop variable; expiry deletes before completing; "
+           "the duration is observed through take(1); every group subscription takes a reference.",
+    "C24": "The connect decision of ref_count / auto_connect is taken before the subscriber is subscribed; auto_connect's per-subscriber "
+           "dispose releases only that subscriber; scheduler forwarding at the subject / connectable subscriptions.",
+    "C25": "The flag is set before the action runs (re-entrancy, raising action).",
+    "C29": "Every clock update after construction dispatches on the clock kind (isinstance datetime) with that kind's arithmetic.",
+    "C33": "The single-thread scheduler's dispose cancels its handle unconditionally.",
+    "C36": "No tz relabelling (`replace(tzinfo=...)`, argument-less astimezone) anywhere in the package (embedded positive example).",
+    "C37": "Source factories: explicit scheduler wins over the subscribe-time one over the default.",
+    "C38": "from_marbles scheduler precedence; check_stopped tests membership in the two terminal marbles; hot() delivers to a snapshot of its subscribers.",
+    "C40": "The resource is bound by identity (not truthiness); the finally-action never escapes as a value; do_* operators forward the subscriber's scheduler.",
+    "C41": "run() decides by identity whether an error was recorded.",
+    "C43": "Stores into state shared between sources, made by code a source thread runs, are under the combinator's lock.",
+    "C04": "Functions handed to operators (ops.map(f), ops.scan(acc, seed)) count as per-element code; an accumulator given together with a seed "
+           "object built once per application does not mutate its accumulation argument in place.",
+    "C20": "_subscribe_core tests is_stopped and registers the observer in one locked region.",
+    "C21": "A delegated broadcast (super()._on_next_core) counts as delivery for the value-before-delivery rule; atomic subscribe.",
+    "C22": "Atomic subscribe (is_stopped test and registration in one locked region).",
+    "C23": "Atomic subscribe (is_stopped test and registration in one locked region).",
+}
+
+
 def all_ids():
     ids = []
     with open(os.path.join(VERIF, "properties.jsonl")) as fh:
@@ -431,7 +474,7 @@ def build():
                 "replay_cmd_template": f"sh sa/run.sh {pid} replay {{path}}",
                 "engine": "rxsa",
                 "level_claimed": {"category": "other",
-                                  "text": f"[{c['strength']}] " + c["text"],
+                                  "text": f"[{c['strength']}] " + c["text"] + ((" " + ADDENDA[pid]) if pid in ADDENDA else ""),
                                   "design_ref": f"DESIGN.md §4 {pid}"},
                 "level_note": c["note"],
                 "technique": "static analysis: " + c["technique"],
